@@ -169,5 +169,42 @@ pub fn column(depth: usize) -> Value {
             }
         }
     }
+    // BLOB columns (their own column builder, block factory and index bookkeeping): short sequences with runs and NULLs, the
+    // wide sequences and the long values
+    let blob_seqs: Vec<Vec<Option<i32>>> = {
+        let mut v: Vec<Vec<Option<i32>>> = vec![
+            vec![Some(7), Some(7), None, None, Some(8), Some(7), Some(7), Some(7), None, Some(9)],
+            (0..40).map(|i| Some([3, 3, 3, 9, 9, 1][i % 6])).collect(),
+            (0..33).map(|i| if i % 4 == 0 { None } else { Some(i / 3) }).collect(),
+        ];
+        v.extend(wide.iter().take(2).cloned());
+        v.push(long_strings[0].clone());
+        v
+    };
+    for items in &blob_seqs {
+        let n = items.len();
+        let has_null = items.iter().any(|v| v.is_none());
+        let big = items.iter().flatten().any(|v| *v >= 1_000_000);
+        for encode in 10u8..13 {
+            for nullable in [false, true] {
+                if has_null && !nullable { continue; }
+                for block in if big { vec![4096usize] } else { vec![48usize, 4096] } {
+                    let starts: Vec<usize> = if n > 50 { vec![0, 1, 255, 256, n - 1, n] } else { (0..=n).collect() };
+                    for start in starts {
+                        for k in [None, Some(3)] {
+                            tried += 1;
+                            let steps: Vec<ColumnRead> = (0..n + 2).map(|_| ColumnRead::Batch(k)).collect();
+                            let input = || json!({"items": format!("{} values: {:?}", n, &items[..n.min(12)]), "type": "blob (bytes of 's'+value)", "encoding": (["plain", "run-length", "dictionary"][(encode - 10) as usize]),
+                                "nullable": nullable, "target_block_size": block, "start_row": start, "steps": format!("{:?}", &steps[..2])});
+                            match h::column_read(items, true, encode, nullable, block, start as u32, &steps) {
+                                Ok(out) => if let Err(e) = check(items, start, &steps, &out) { return json!({"found": true, "tried": tried, "input": input(), "observed": format!("{e}; first batches returned (row id, values): {:?}", &out[..out.len().min(3)])}); },
+                                Err(e) => return json!({"found": true, "tried": tried, "input": input(), "observed": e}),
+                            }
+                        }
+                    }
+                }
+            }
+        }
+    }
     json!({"found": false, "tried": tried})
 }
